@@ -63,14 +63,33 @@ def canon(obj):
 
 
 class BuildLock:
+    """Re-entrant within a process: translate + prove of one check run under one lock so that another
+    check (possibly against another repository tree) cannot swap the generated files in between."""
+    depth = 0
+    f = None
+
     def __enter__(self):
-        self.f = open(LOCK, "w")
-        fcntl.flock(self.f, fcntl.LOCK_EX)
+        if BuildLock.depth == 0:
+            BuildLock.f = open(LOCK, "w")
+            fcntl.flock(BuildLock.f, fcntl.LOCK_EX)
+        BuildLock.depth += 1
         return self
 
     def __exit__(self, *a):
-        fcntl.flock(self.f, fcntl.LOCK_UN)
-        self.f.close()
+        BuildLock.depth -= 1
+        if BuildLock.depth == 0:
+            fcntl.flock(BuildLock.f, fcntl.LOCK_UN)
+            BuildLock.f.close()
+            BuildLock.f = None
+
+
+def hold_build_lock():
+    BuildLock().__enter__()
+
+
+def release_build_lock():
+    while BuildLock.depth > 0:
+        BuildLock().__exit__()
 
 
 def ensure_makefile():
@@ -171,12 +190,16 @@ class Check:
         os.makedirs(GEN, exist_ok=True)
         self.known = load_known(pid)
         self._crumb = os.environ.get("VERIF_CRUMB")
+        self._holding = False
 
     # ---------------------------------------------------------------- translate
     def translate(self, name, fn, out_name=None):
         """Run translator `fn()` -> Coq text; write Gen/<out_name>.v iff changed.
         On failure the previous Gen file is replaced by nothing: we record the break."""
         out_name = out_name or name
+        if not self._holding:
+            hold_build_lock()
+            self._holding = True
         path = os.path.join(GEN, out_name + ".v")
         try:
             txt = fn()
@@ -197,6 +220,14 @@ class Check:
         """Full .vo build of coq/<prop_file>.v (and its dependencies).  Each name in
         `theorems` is one obligation; it is discharged iff the file built and
         Print Assumptions reported it with allowed axioms only."""
+        try:
+            return self._prove(prop_file, theorems, timeout)
+        finally:
+            if self._holding:
+                release_build_lock()
+                self._holding = False
+
+    def _prove(self, prop_file, theorems, timeout):
         bad = forbidden_scan()
         if bad:
             for t in theorems:
@@ -317,6 +348,9 @@ class Check:
                 search()
             except Exception as e:
                 self.notes.append("search raised: " + repr(e))
+        if self._holding:
+            release_build_lock()
+            self._holding = False
         rc = 0
         lines = []
         for kf in self.known_hits:
